@@ -98,10 +98,10 @@ def ensure_facts(repo="/repo", quiet=False, target_dir=None, cache_key_extra="")
         os.rename(out + ".part", out)
         if not quiet:
             sys.stderr.write("[facts] extracted %s in %.1fs\n" % (os.path.basename(out), time.time() - t0))
-        # keep the cache small: drop all but the 10 newest fact files
+        # keep the cache small: drop all but the 24 newest fact files
         fdir = os.path.join(CACHE, "facts")
         fs = sorted((os.path.getmtime(os.path.join(fdir, f)), f) for f in os.listdir(fdir) if f.endswith(".jsonl"))
-        for _, f in fs[:-10]:
+        for _, f in fs[:-24]:
             os.remove(os.path.join(fdir, f))
         return out, False
     finally:
